@@ -40,6 +40,8 @@ def generate(rng, tier, mult):
                 ops.append("write_sum z%d %s" % (calc_max_input(n), num(n)))
             if n > 0:
                 ops.append("write_sum z%d %s" % (n, num(n)))       # n bytes offered: what one write can take at most
+        if i == 0:
+            ops += END_SMALL
         scripts.append({"ops": ops, "meta": {"kind": "chunked", "ns": ns[i:i + per]}})
     # chunked bodies reached in other ways: explicit Transfer-Encoding, Transfer-Encoding together with a Content-Length (chunked
     # wins, both orders), body-less method with send_body_despite_method
@@ -69,7 +71,7 @@ def generate(rng, tier, mult):
                 ops.append("write_sum z%d %s" % (calc_max_input(n), num(n)))
             if n > 0:
                 ops.append("write_sum z%d %s" % (n, num(n)))
-        scripts.append({"ops": ops, "meta": {"kind": "chunked", "ns": picks}})
+        scripts.append({"ops": ops + END_SMALL, "meta": {"kind": "chunked", "ns": picks}})
     # every other route into a chunked SendBody (lib.send_context)
     for route in ["added", "despite-added", "host", "expect-continued", "expect-giveup", "expect-partial", "http10", "default-despite", "hop2"]:
         ops = send_context(rng, "chunked", route)[0] + ["q_is_chunked"]
@@ -79,7 +81,7 @@ def generate(rng, tier, mult):
                 ops.append("write_sum z%d %s" % (calc_max_input(n), num(n)))
             if n > 0:
                 ops.append("write_sum z%d %s" % (n, num(n)))
-        scripts.append({"ops": ops, "meta": {"kind": "chunked", "ns": picks}})
+        scripts.append({"ops": ops + END_SMALL, "meta": {"kind": "chunked", "ns": picks}})
     # sized bodies (the last two: a redirected request given a body and a new length on request; a head written in segments that
     # end right after the last header line -- lines 17 + 14 + 23 bytes)
     sized_starts = [([op_new("POST", "1.1", "http", "a.test", "/", [("content-length", str(t))]), "proceed", "write_head #4096", "proceed", "q_is_chunked"], t)
@@ -97,6 +99,11 @@ def generate(rng, tier, mult):
             left -= k
         scripts.append({"ops": ops, "meta": {"kind": "sized", "total": n_total}})
     return scripts
+
+
+# where the advertised maximum is 0 (output lengths 0..4 cannot even hold the terminator) the advertised input is the empty one, i.e. the
+# finishing write: it must "fit" like any other advertised input -- accepted, nothing or the whole terminator produced (seeded change C18-15)
+END_SMALL = ["q_max_input #0", "write_body x #0", "q_max_input #1", "write_body x #1", "q_max_input #4", "write_body x #4", "q_max_input #5", "write_body x #5"]
 
 
 def calc_max_input(n):
@@ -141,6 +148,14 @@ def oracle(script, obs):
                     fails.append("advertised maximum decreases: %d -> %d for n %d -> %d" % (last_adv, adv, last_n, n))
                     break
                 last_adv, last_n = adv, n
+        elif p[0] == "write_body" and p[1] == "x":
+            if not o.startswith("ok "):
+                fails.append("op %d: the advertised (empty) input written into %s bytes of output is refused: %s" % (i, p[2], o))
+                break
+            ci, co, _ = parse_counts(o)
+            if ci != 0 or co > unnum(p[2]) or co not in (0, 5):
+                fails.append("op %d: finishing write into %s bytes: consumed %d produced %d" % (i, p[2], ci, co))
+                break
         elif p[0] == "write_sum":
             if not o.startswith("ok "):
                 fails.append("op %d: write failed: %s" % (i, o))
